@@ -163,3 +163,15 @@ PROPS["C09"] = {
         {"name": "C09.gater", "test": "TestVerifC09Gater", "shards": 8},
     ],
 }
+
+PROPS["C16"] = {
+    "claimed": False,
+    "level": "exploration",
+    "level_text": "TODO",
+    "level_note": "TODO",
+    "technique": "TODO",
+    "rule": "TODO",
+    "monitors": [
+        {"name": "C16.blacklist", "test": "TestVerifC16Blacklist", "shards": 16},
+    ],
+}
